@@ -24,7 +24,7 @@ from harness import core
 from harness import lib_c02c14 as L
 
 FEAT = {"inline": False, "init": True, "unused": True, "func": True, "func_in_body": True, "nested_func": True,
-        "vary": True, "collide": True, "rmax": True, "mixed": True}
+        "vary": True, "collide": True, "rmax": True, "mixed": True, "generic": True}
 
 
 # ------------------------------------------------------------------ (a) structure of the real build
@@ -61,11 +61,7 @@ def extract_fgraph(spec):
 
         def graph_json(g):
             b = _build.Builder(g)
-            b.discover(b.main)
-            b.graph_topo.reverse()
-            for x in b.graph_topo:
-                b.update_scope_tree(x)
-            b.resolve_scopes()
+            b.build_main()  # the real stages; only arguments_of / scope_own are read afterwards
 
             def one(gg):
                 nodes = []
@@ -130,6 +126,7 @@ def gen_sem(rng):
                 ins[rng.randrange(nin)] = nenv - 1  # every node is live: it feeds the next one
                 nodes_m.append(["call", funcs_m[fi], ins])
                 stmts.append(["call", fi, ins])
+                nenv += funcs_s[fi]["nout"] - 1  # a call yields one value per function output
             else:
                 name, lab, ar = rng.choice(SEM_OPS)
                 ins = [rng.randrange(nenv) for _ in range(ar)]
@@ -145,12 +142,14 @@ def gen_sem(rng):
         nin = rng.choice([1, 2])
         idx = len(funcs_m)
         funcs_m.append(None)
-        funcs_s.append({"nin": nin})
+        funcs_s.append({"nin": nin, "nout": 1})
         nm, st, nenv = gen_nodes(nin, rng.randrange(1, 4), depth)
-        out = nenv - 1
+        # one or two outputs; the last one is the last node of the body (so the whole body is live)
+        outs = [nenv - 1] if rng.random() < 0.6 else [rng.randrange(nenv), nenv - 1]
         key = idx if rng.random() < 0.85 or idx == 0 else rng.randrange(idx)  # sometimes a colliding key
-        funcs_m[idx] = {"key": key, "body": nm, "out": out}
-        funcs_s[idx] = {"name": f"g{key}", "domain": "sem", "nin": nin, "nout": 1, "body": {"stmts": st, "outs": [out]}}
+        funcs_m[idx] = {"key": key, "body": nm, "outs": outs}
+        funcs_s[idx] = {"name": f"g{key}", "domain": "sem", "nin": nin, "nout": len(outs),
+                        "body": {"stmts": st, "outs": outs}}
         fdepth[idx] = 1 + max([fdepth[s[1]] for s in st if s[0] == "call"] or [0])
         return idx
 
@@ -285,7 +284,7 @@ def compare_runtime(spec, m, feeds, out):
 def judge(spec, rng, feeds_first=None):
     """Model-free C14 oracle on one spec. -> dict(status, fails=[(key, what)], info)"""
     out = {"fails": [], "runtime": None}
-    expected_raise = L.distinguishable_bodies(spec)
+    expected_raise = L.distinguishable_bodies(spec) + L.generic_bodies_differ(spec)
     st, m = L.build_spec(spec)
     out["status"] = st
     if st == "err":
@@ -408,6 +407,16 @@ HAND_SPECS = [
      "funcs": [{"name": "f", "domain": "dom", "nin": 1, "nout": 1,
                 "body": {"stmts": [["op", "relu", 17, [0]]], "outs": [1]}}],
      "models": []},
+    # a dtype-generic function (its constant has the argument's dtype) called at float32 and float64: must raise
+    {"args": ["f"], "inputs": [["x", 0]],
+     "stmts": [["callg", 0, 0, "f32"], ["callg", 0, 1, "f64"]],
+     "outputs": [["z", 2]], "drop": False, "funcs": [], "models": [],
+     "generics": [{"name": "g", "domain": "gen.dom", "kind": "addconst"}]},
+    # ... the same body whatever the dtype: one definition, legitimately shared
+    {"args": ["f"], "inputs": [["x", 0]],
+     "stmts": [["callg", 0, 0, "f32"], ["callg", 0, 1, "f64"]],
+     "outputs": [["z", 2]], "drop": False, "funcs": [], "models": [],
+     "generics": [{"name": "g", "domain": "gen.dom", "kind": "mulself"}]},
     # mixed opset versions inside a function body
     {"args": ["f"], "inputs": [["x", 0]],
      "stmts": [["call", 0, [0]], ["op", "identity", 21, [1]]],
